@@ -191,22 +191,20 @@ def pad_position(classes, model_kinds):
     """Position class of a corrupted pad count.  The decoder takes the pad count from one shard's metadata:
     'file'  = the lowest-numbered shard file that can be read at all has a corrupted pad count,
     'valid' = the lowest-numbered shard file that is self-consistent (complete, checksum matches, pad count in range)
-              has a corrupted (in-range) pad count.   Returns e.g. 'metaPadLow@file+valid' or ''."""
-    where, cls = [], ""
+              has a corrupted (in-range) pad count.   Returns e.g. 'metaPadHigh@file+metaPadLow@valid' or ''."""
+    where = []
     for i, mk in enumerate(model_kinds):
         if mk in ("missing", "truncShort"):
             continue
         if classes[i].startswith("metaPad"):
-            where.append("file")
-            cls = classes[i]
+            where.append(classes[i] + "@file")
         break
     for i, mk in enumerate(model_kinds):
         if mk == "ok" or classes[i] == "metaPadLow":
             if classes[i] == "metaPadLow":
-                where.append("valid")
-                cls = cls or classes[i]
+                where.append("metaPadLow@valid")
             break
-    return "%s@%s" % (cls, "+".join(where)) if where else ""
+    return "+".join(where)
 
 
 def norm_detail(s):
